@@ -103,17 +103,8 @@ func checkC15(r *Run) {
 			nRem++
 			ok := false
 			for _, cd := range condsAtInstr(c) {
-				nc := normCond(cd)
-				b, isB := nc.V.(*ssa.BinOp)
-				if !isB || (b.Op != token.EQL && b.Op != token.NEQ) {
-					continue
-				}
-				for _, pair := range [][2]ssa.Value{{b.X, b.Y}, {b.Y, b.X}} {
-					if k, isC := pair[1].(*ssa.Const); isC && k.Value != nil && k.Value.ExactString() == `"/"` {
-						if pt.classAt(fn, pair[0], c, nil, 0) == pRC && (b.Op == token.NEQ) == nc.Truth {
-							ok = true
-						}
-					}
+				if condExcludesRoot(pt, fn, normCond(cd), c, 0) {
+					ok = true
 				}
 			}
 			r.Check(ok, "root-guard", fnName(fn)+": removal only when Path != \"/\"", c.Pos(), "the exported root itself can be removed")
@@ -173,9 +164,59 @@ func checkC15(r *Run) {
 func findCallsInvoke(fn *ssa.Function, method, iface string) []*ssa.Call {
 	var out []*ssa.Call
 	eachInstr(fn, func(in ssa.Instruction) {
-		if c, ok := in.(*ssa.Call); ok && c.Call.IsInvoke() && c.Call.Method.Name() == method && isP9P(c.Call.Value.Type(), iface) {
+		if c, ok := in.(*ssa.Call); ok && c.Call.IsInvoke() && (method == "" || c.Call.Method.Name() == method) && isP9P(c.Call.Value.Type(), iface) {
 			out = append(out, c)
 		}
 	})
 	return out
+}
+
+// condExcludesRoot: the branch condition implies that a root-relative clean path differs from "/": a direct
+// comparison with "/", or a predicate helper of the package (`ref.isRoot()`) known false/true here, each of whose
+// returns of that truth value lies on an edge implying the inequality (or returns the comparison itself).
+func condExcludesRoot(pt *PT, fn *ssa.Function, nc Cond, at ssa.Instruction, depth int) bool {
+	switch v := nc.V.(type) {
+	case *ssa.BinOp:
+		if v.Op != token.EQL && v.Op != token.NEQ {
+			return false
+		}
+		for _, pair := range [][2]ssa.Value{{v.X, v.Y}, {v.Y, v.X}} {
+			if k, isC := pair[1].(*ssa.Const); isC && k.Value != nil && k.Value.ExactString() == `"/"` {
+				if pt.classAt(fn, pair[0], at, nil, 0) == pRC && (v.Op == token.NEQ) == nc.Truth {
+					return true
+				}
+			}
+		}
+	case *ssa.Call:
+		g := staticCallee(&v.Call)
+		if g == nil || g.Blocks == nil || depth > 1 || !pt.p.InModule(g) || g.Signature.Results().Len() != 1 {
+			return false
+		}
+		n := 0
+		for _, rs := range returnSites(g) {
+			res := rs.Results[0]
+			if k, isC := res.(*ssa.Const); isC && k.Value != nil {
+				if (k.Value.ExactString() == "true") != nc.Truth {
+					continue // this return gives the other truth value
+				}
+			}
+			n++
+			good := false
+			// the returned value is itself such a comparison …
+			if condExcludesRoot(pt, g, normCond(Cond{res, nc.Truth}), rs.At(), depth+1) {
+				good = true
+			}
+			// … or the return lies on an edge implying it
+			for _, cd := range rs.Conds() {
+				if condExcludesRoot(pt, g, normCond(cd), rs.At(), depth+1) {
+					good = true
+				}
+			}
+			if !good {
+				return false
+			}
+		}
+		return n > 0
+	}
+	return false
 }
